@@ -612,6 +612,8 @@ def tailStage (R : ResolvedInst) (inst : Inst) (operands : List Operand) (combin
         | none => .invalidExtraReg
     else if test iflags ifEvex then
       if et ≠ rtMask then .invalidExtraReg
+      -- (fixes/C13-14) there are only 8 mask registers
+      else if eid < virtIdMin && (eid ≥ 32 || !test (allowedRegMask inst.mode rtMask) (bit eid)) then .invalidPhysId
       else if eid = 0 || !test avx avxK then .invalidKMaskUse
       else .ok
     else .invalidExtraReg
